@@ -81,31 +81,31 @@ static int xattr_from_path(sqfs_xattr_writer_t *xwr, const char *path)
 			goto fail;
 		}
 
-		if (vallen > 0) {
-			value = calloc(1, vallen);
-			if (value == NULL) {
-				perror("allocating xattr value buffer");
-				goto fail;
-			}
+		/* an attribute with an empty value is an attribute, too */
+		value = calloc(1, vallen + 1);
+		if (value == NULL) {
+			perror("allocating xattr value buffer");
+			goto fail;
+		}
 
+		if (vallen > 0) {
 			vallen = lgetxattr(path, key, value, vallen);
 			if (vallen == -1) {
 				fprintf(stderr, "lgetxattr %s: %s\n",
 					path, strerror(errno));
 				goto fail;
 			}
-
-			ret = sqfs_xattr_writer_add_kv(xwr, key, value, vallen);
-			if (ret) {
-				sqfs_perror(path,
-					    "storing xattr key-value pairs",
-					    ret);
-				goto fail;
-			}
-
-			free(value);
-			value = NULL;
 		}
+
+		ret = sqfs_xattr_writer_add_kv(xwr, key, value, vallen);
+		if (ret) {
+			sqfs_perror(path, "storing xattr key-value pairs",
+				    ret);
+			goto fail;
+		}
+
+		free(value);
+		value = NULL;
 
 		keylen = strlen(key) + 1;
 		buflen -= keylen;
